@@ -1,5 +1,6 @@
 ---- MODULE MC_q_mod ----
 EXTENDS MCOFWire
 TheCases == Modified(0) \cup NXModified(0)
+TheRCases == {}
 TheAround == AroundOne
 ====
